@@ -122,8 +122,26 @@ impl DnsRegistry {
     // entry-API / closure code over `probing` and `active`; never touches the rename table
     #[verifier::external_body]
     pub fn is_probing_done<T: DnsRecordExt>(&mut self, answer: &T, service_name: &str, start_time: u64) -> (r: bool)
-        ensures final(self).name_changes == old(self).name_changes,
+        ensures final(self).name_changes == old(self).name_changes, final(self).done_log() == old(self).done_log().push(r),
     { unimplemented!() }
+    // ghost: what is_probing_done answered, in call order (proved in unit conflict: true exactly for a record that is active)
+    pub uninterp spec fn done_log(&self) -> Seq<bool>;
+}
+// one of the answers from position n0 on was "still probing"
+pub open spec fn any_false(l: Seq<bool>, n0: int) -> bool { exists|k: int| n0 <= k < l.len() && !#[trigger] l[k] }
+pub proof fn lemma_any_false_push(l: Seq<bool>, b: bool, n0: int)
+    requires 0 <= n0 <= l.len(),
+    ensures any_false(l.push(b), n0) == (any_false(l, n0) || !b),
+{
+    if any_false(l, n0) {
+        let k = choose|k: int| n0 <= k < l.len() && !#[trigger] l[k];
+        assert(!l.push(b)[k]);
+    }
+    if !b { assert(!l.push(b)[l.len() as int]); }
+    if any_false(l.push(b), n0) {
+        let k = choose|k: int| n0 <= k < l.push(b).len() && !#[trigger] l.push(b)[k];
+        if k < l.len() { assert(!l[k]); }
+    }
 }
 // `fastrand::u64(0..250)`
 #[verifier::external_body]
